@@ -22,7 +22,7 @@ use std::{
 use corosensei::{stack::DefaultStack, Coroutine, CoroutineResult, Yielder};
 use serde::{Deserialize, Serialize};
 
-use crate::rng::{Hasher, Rng};
+use simcore::rng::{Hasher, Rng};
 
 pub const CONTROLLER: usize = usize::MAX;
 
@@ -105,19 +105,7 @@ pub enum Resume {
     Cancel,
 }
 
-#[derive(Clone, Copy, Debug, PartialEq, Eq, Serialize, Deserialize)]
-pub enum Decision {
-    /// Resume actor
-    Run(usize),
-    /// Open gate (world-defined id)
-    Gate(u32),
-    /// Advance the virtual clock to the next candidate instant
-    Advance,
-    /// Make the actor drop the future it is pending on
-    Cancel(usize),
-    /// Poll a pending actor although nobody woke it
-    Spurious(usize),
-}
+pub use simcore::{Decision, Violation};
 
 pub struct ActorWaker {
     pub flag: AtomicBool,
@@ -213,6 +201,7 @@ pub fn install_hooks() {
             run_blocking: hook_run_blocking,
         });
         assert!(ok, "verif hooks already installed");
+        deadpool_runtime::verif::set_physical_cpus(4);
         let default = std::panic::take_hook();
         std::panic::set_hook(Box::new(move |info| {
             if QUIET.with(|q| q.get()) && std::env::var_os("DSIM_LOUD").is_none() {
@@ -598,26 +587,9 @@ impl Default for Knobs {
     }
 }
 
-#[derive(Clone, Debug, Serialize, Deserialize, PartialEq, Eq)]
-pub struct Violation {
-    pub property: String,
-    pub clause: String,
-    pub detail: String,
-    pub step: u64,
-}
-
-impl Violation {
-    pub fn new(property: &str, clause: &str, detail: String) -> Self {
-        Violation {
-            property: property.to_string(),
-            clause: clause.to_string(),
-            detail,
-            step: current_step(),
-        }
-    }
-    pub fn signature(&self) -> String {
-        format!("{}:{}", self.property, self.clause)
-    }
+/// Violation stamped with the current simulation step.
+pub fn violation(property: &str, clause: &str, detail: String) -> Violation {
+    Violation::at(property, clause, detail, current_step())
 }
 
 /// What the world contributes to a run.
